@@ -82,6 +82,8 @@ def _mk_builtin_excs():
 
     mk('BaseException')
     mk('Exception', 'BaseException')
+    mk('KeyboardInterrupt', 'BaseException')
+    mk('SystemExit', 'BaseException')
     mk('NonFiniteResult', 'BaseException')   # pseudo: numpy produced inf/nan (undefined op)
     mk('ArithmeticError', 'Exception')
     mk('ZeroDivisionError', 'ArithmeticError')
